@@ -5,6 +5,9 @@ machine over all token trees).  Decided on the MIR of `indextree_macros::tree` a
   (1) in the final template the `arena` expression and the `root_node` expression are each interpolated exactly once, `arena` first
   (2) the Append template interpolates its node expression exactly once; Parent and Nest interpolate nothing
   (3) Action::Append is constructed at exactly one site (one node per written expression), Parent and Nest at one site each
+  (5) pairing: Nest and its nesting marker are pushed together (control-equivalent), Append dominates Nest, Parent is emitted on the marker arm
+  (6) stack discipline: initial stack = nodes reversed; marker pushed below the children on the stack the loop pops; children reversed, taken from the popped node;
+      Append carries the popped node's expression
   (4) the templates name only the API functions append_value, new_node, get, parent, unwrap (read from the identifier constants emitted by quote!)
 """
 from vlib import facts, rules
@@ -94,6 +97,37 @@ def main(tier):
     if parent and app:
         run.ob("pairing", "the Parent action is on the marker arm, not on the node arm", not cfg.dominates(app[0]["bb"], parent[0]["bb"]) and not cfg.dominates(parent[0]["bb"], app[0]["bb"]),
                key="pairing|Parent is emitted on the node arm", nontrivial="parent-arm")
+    # (6) stack discipline of the flattening loop (each breach changes nesting or sibling order for some literal)
+    calls = [(bi, t, rules.callee_name(t["callee"])) for bi, t in prog.calls(f)]
+
+    def org(t, i):
+        return rules.origin(prog, f, t["args"][i])
+
+    def has_call(o, suffix):
+        return any(x[0] == "call" and x[1].endswith(suffix) for x in o)
+    collects = [c for c in calls if c[2].endswith("Iterator::collect")]
+    init = [c for c in collects if has_call(org(c[1], 0), "Iterator::rev")]
+    run.ob("stack", "the work stack is the literal's nodes in reverse (so that pop() yields textual order)", len(init) == 1,
+           key="stack|initial work stack is not nodes.into_iter().map(..).rev().collect()", detail=[sorted(map(str, org(c[1], 0))) for c in collects], nontrivial="init-rev", sample=True)
+    pops = [c for c in calls if c[2] == "alloc::vec::Vec::<T, A>::pop"]
+    exts = [c for c in calls if c[2].endswith("Extend<T>>::extend")]
+    mpush = [c for c in calls if c[2] == "alloc::vec::Vec::<T, A>::push" and any(x[0] == "agg" and x[1] == "either::Either" for x in org(c[1], 1))]
+    if run.ob("stack", "one extend (children), one marker push", len(exts) == 1 and len(mpush) == 1, key="stack|children extend / marker push sites: %d/%d" % (len(exts), len(mpush))):
+        e, m = exts[0], mpush[0]
+        same_stack = lambda t: any(x[0] == "call" and x[1].endswith("Iterator::collect") and x[2] == init[0][0] for x in org(t, 0)) if init else False
+        run.ob("stack", "marker and children go onto the same stack the loop pops from", same_stack(e[1]) and same_stack(m[1]) and any(same_stack(p_[1]) for p_ in pops),
+               key="stack|marker/children are not pushed onto the work stack", nontrivial="same-stack")
+        run.ob("stack", "children are pushed in reverse textual order", has_call(org(e[1], 1), "Iterator::rev"), key="stack|children are not pushed reversed (sibling order would flip)",
+               detail=sorted(map(str, org(e[1], 1))), nontrivial="child-rev", sample=True)
+        run.ob("stack", "children come from the popped node", any("children" in str(x) for x in rules.origin(prog, f, [c for c in calls if c[0] < e[0] and c[2].endswith("IntoIterator>::into_iter")][-1][1]["args"][0])),
+               key="stack|the pushed children are not the popped node's children", nontrivial="child-src")
+        run.ob("stack", "the marker is pushed before (below) the children", cfg.dominates(m[0], e[0]) and m[0] != e[0], key="stack|nesting marker is not pushed below the children", nontrivial="marker-below")
+    apush = [c for c in calls if c[2] == "alloc::vec::Vec::<T, A>::push" and any(x[0] == "agg" and x[1] == "crate::Action" and x[2] == "Append" for x in org(c[1], 1))]
+    if apush:
+        agg = [a for a in rules.aggregates(prog, "crate::Action") if a["variant"] == "Append" and a["fn"] == "crate::tree"][0]
+        o = rules.origin(prog, f, agg["stmt"]["rv"]["ops"][0])
+        run.ob("stack", "Append carries the popped node's own expression", any(x[0] == "call" and x[1] == "alloc::vec::Vec::<T, A>::pop" and ".node" in x[3] for x in o),
+               key="stack|Append does not carry the popped node's expression", detail=sorted(map(str, o)), nontrivial="append-src")
     # (4) API named by the templates
     ids_tree = [s for _, s in idents_of(prog, f)]
     ids_act = [s for _, s in idents_of(prog, g)]
